@@ -158,10 +158,10 @@ def diff(a, b, path, out, limit=12, ignore=()):
         if ignore:
             a = dict((k, v) for k, v in a.items() if k not in ignore)
             b = dict((k, v) for k, v in b.items() if k not in ignore)
-        if set(a) != set(b):
-            out.append('%s: keys %s vs %s' % (path, sorted(set(a) - set(b)), sorted(set(b) - set(a))))
+        if set(b) - set(a):
+            out.append('%s: missing %s' % (path, sorted(set(b) - set(a))))
             return
-        for k in a:
+        for k in b:
             diff(a[k], b[k], '%s.%s' % (path, k), out, limit, ignore)
         return
     if a != b:
